@@ -18,8 +18,8 @@
        false = bit 0 = "entry_in_partition1" = haplotype 0 of the read's individual;
      * transmission values are numbers < 4^(number of trios): bit 2k of the value belongs to the
        father, bit 2k+1 to the mother of trio k (PedigreePartitions). *)
-From Coq Require NArith.
 From mathcomp Require Import all_ssreflect.
+From Coq Require NArith.
 Set Implicit Arguments.
 Unset Strict Implicit.
 Unset Printing Implicit Defensive.
@@ -112,42 +112,53 @@ Fixpoint h2p_rec (fuel t i : nat) (h : bool) : option nat :=
   else None.
 Definition h2p (t i : nat) (h : bool) : nat := odflt 0 (h2p_rec (i_nind I).+1 t i h).
 
+(* haplotype_to_partition_map of the PedigreePartitions object for transmission value t *)
+Definition hpmap := seq (nat * nat).
+Definition h2p_map (t : nat) : hpmap := [seq (h2p t i false, h2p t i true) | i <- iota 0 (i_nind I)].
+Definition hp_get (hp : hpmap) (i : nat) (h : bool) : nat :=
+  let e := nth (0, 0) hp i in if h then e.2 else e.1.
+
 (* ------------------------------------------------------------ PedigreeColumnCostComputer *)
-Definition geno (c i : nat) : gspec := nth (GT 0) (nth [::] (i_geno I) c) i.
 (* allele assignments in the code's enumeration order i = 0 .. 2^npart - 1, bit p of i = allele of
    partition p, as seq bool indexed by partition *)
 Definition assignments : seq (seq bool) := [seq rev v | v <- bvs npart].
-Definition allele_of (a : seq bool) (t i : nat) (h : bool) : bool := nth false a (h2p t i h).
+Definition allele_of (hp : hpmap) (a : seq bool) (i : nat) (h : bool) : bool := nth false a (hp_get hp i h).
 (* constructor: None = not compatible with a trusted genotype, Some g = genotype cost *)
-Definition geno_cost (c t : nat) (a : seq bool) : option nat :=
+Definition geno_cost (hp : hpmap) (gs : seq gspec) (a : seq bool) : option nat :=
   foldl (fun acc i =>
            if acc is Some g then
-             let k := allele_of a t i false + allele_of a t i true in
-             match geno c i with
+             let k := allele_of hp a i false + allele_of hp a i true in
+             match nth (GT 0) gs i with
              | GT n => if k == n then Some g else None
              | GL g0 g1 g2 => Some (g + nth 0 [:: g0; g1; g2] k)
              end
            else None) (Some 0) (iota 0 (i_nind I)).
-Definition allowed (c t : nat) : seq (seq bool * nat) :=
-  pmap (fun a => omap (fun g => (a, g)) (geno_cost c t a)) assignments.
-(* set_partitioning + the inner sum of get_cost: total weight of the entries of column c that
+(* one cost computer = (partition map, allowed assignments with their genotype cost) *)
+Definition cc := (hpmap * seq (seq bool * nat))%type.
+Definition dflt_cc : cc := ([::], [::]).
+Definition mk_cc (c t : nat) : cc :=
+  let hp := h2p_map t in
+  (hp, pmap (fun a => omap (fun g => (a, g)) (geno_cost hp (nth [::] (i_geno I) c) a)) assignments).
+Definition allowed (c t : nat) : seq (seq bool * nat) := (mk_cc c t).2.
+(* the input column: (individual of the read, entry) for every active read *)
+Definition colents (c : nat) : seq (nat * entry) := [seq (r_sample (rd i), r_entry (rd i) c) | i <- active c].
+(* set_partitioning + the inner sum of get_cost: total weight of the entries of the column that
    differ from the allele assigned to their partition (x = bipartition of the active reads) *)
-Definition flip_cost (c : nat) (x : seq bool) (t : nat) (a : seq bool) : nat :=
+Definition flip_cost (hp : hpmap) (ents : seq (nat * entry)) (x : seq bool) (a : seq bool) : nat :=
   foldr addn 0
-    [seq (if r_entry (rd jr.2) c is Some (al, w)
-          then (if al != allele_of a t (r_sample (rd jr.2)) (nth false x jr.1) then w else 0)
-          else 0)
-    | jr <- zip (iota 0 (size (active c))) (active c)].
-Definition assignment_costs (c : nat) (x : seq bool) (t : nat) : seq (seq bool * nat) :=
-  [seq (ag.1, ag.2 + flip_cost c x t ag.1) | ag <- allowed c t].
+    [seq (if xe.2.2 is Some (al, w) then (if al != allele_of hp a xe.2.1 xe.1 then w else 0) else 0)
+    | xe <- zip x ents].
+Definition assignment_costs (k : cc) (ents : seq (nat * entry)) (x : seq bool) : seq (seq bool * nat) :=
+  [seq (ag.1, ag.2 + flip_cost k.1 ents x ag.1) | ag <- k.2].
 (* get_cost *)
-Definition local_cost (c : nat) (x : seq bool) (t : nat) : option nat :=
-  ominl [seq Some ac.2 | ac <- assignment_costs c x t].
+Definition lcost (k : cc) (ents : seq (nat * entry)) (x : seq bool) : option nat :=
+  ominl [seq Some ac.2 | ac <- assignment_costs k ents x].
+Definition local_cost (c : nat) (x : seq bool) (t : nat) : option nat := lcost (mk_cc c t) (colents c) x.
 
 (* get_alleles: per individual (allele0, allele1, quality); allele code 0 = REF, 1 = ALT,
    3 = EQUAL_SCORES; None = the "Mendelian conflict" exception of get_alleles *)
-Definition best_for (acs : seq (seq bool * nat)) (t i : nat) (h b : bool) : option nat :=
-  ominl [seq Some ac.2 | ac <- acs & allele_of ac.1 t i h == b].
+Definition best_for (hp : hpmap) (acs : seq (seq bool * nat)) (i : nat) (h b : bool) : option nat :=
+  ominl [seq Some ac.2 | ac <- acs & allele_of hp ac.1 i h == b].
 (* abs((int)a - (int)b) with (int)UINT_MAX = -1 *)
 Definition quality (a b : option nat) : nat :=
   match a, b with
@@ -157,15 +168,17 @@ Definition quality (a b : option nat) : nat :=
 Definition last_best (acs : seq (seq bool * nat)) : option nat * seq bool :=
   foldl (fun st ac => if ole (Some ac.2) st.1 then (Some ac.2, ac.1) else st) (None, [::]) acs.
 Definition acode (q : nat) (b : bool) : nat := if q == 0 then 3 else nat_of_bool b.
-Definition get_alleles (c : nat) (x : seq bool) (t : nat) : option (seq (nat * nat * nat)) :=
-  let acs := assignment_costs c x t in
+Definition get_alleles_cc (k : cc) (ents : seq (nat * entry)) (x : seq bool) : option (seq (nat * nat * nat)) :=
+  let acs := assignment_costs k ents x in
   let lb := last_best acs in
   if lb.1 is Some _ then
-    Some [seq (let q0 := quality (best_for acs t i false false) (best_for acs t i false true) in
-               let q1 := quality (best_for acs t i true false) (best_for acs t i true true) in
-               (acode q0 (allele_of lb.2 t i false), acode q1 (allele_of lb.2 t i true), q1))
+    Some [seq (let q0 := quality (best_for k.1 acs i false false) (best_for k.1 acs i false true) in
+               let q1 := quality (best_for k.1 acs i true false) (best_for k.1 acs i true true) in
+               (acode q0 (allele_of k.1 lb.2 i false), acode q1 (allele_of k.1 lb.2 i true), q1))
          | i <- iota 0 (i_nind I)]
   else None.
+Definition get_alleles (c : nat) (x : seq bool) (t : nat) : option (seq (nat * nat * nat)) :=
+  get_alleles_cc (mk_cc c t) (colents c) x.
 
 (* ------------------------------------------------------------ PedigreeDPTable *)
 Definition recomb (c : nat) : nat := nth 0 (i_recomb I) c.
@@ -177,24 +190,32 @@ Definition table := seq (seq bool * row).
 Fixpoint lookup (tb : table) (k : seq bool) : row :=
   if tb is kr :: tb' then (if kr.1 == k then kr.2 else lookup tb' k) else [::].
 Definition tlook (tb : table) (k : seq bool) (t : nat) : option nat := nth None (lookup tb k) t.
-Definition tabulate (ks : seq (seq bool)) (f : seq bool -> nat -> option nat) : table :=
-  [seq (k, [seq f k t | t <- ts]) | k <- ks].
 
-(* one cell of the DP column: current_cost + min_j (previous projection [backward index][j]
-   + popcount(i xor j) * recombcost[c]) *)
-Definition dcell (c : nat) (prev : table) (x : seq bool) (t : nat) : option nat :=
-  let prow := lookup prev (take (bw c) x) in
-  oadd (local_cost c x t)
-       (ominl [seq oadd (nth None prow t') (Some (trans_cost c t' t)) | t' <- ts]).
-Definition dp_column (c : nat) (prev : table) : table :=
-  tabulate (bvs (size (active c))) (dcell c prev).
+(* the cost computers of column c (one per transmission value) applied to every bipartition of
+   the active reads: current_cost for each (bipartition, transmission value) *)
+Definition local_rows (c : nat) : table :=
+  let ents := colents c in
+  let ccs := [seq mk_cc c t | t <- ts] in
+  [seq (x, [seq lcost k ents x | k <- ccs]) | x <- bvs (size ents)].
+(* `if (!found_valid_transmission_vector) throw "Mendelian conflict"` for some bipartition *)
+Definition conflict_in (lrows : table) : bool := has (fun e => all (fun v => ~~ isSome v) e.2) lrows.
+(* the DP column: cell = current_cost + min_j (previous projection [backward index][j]
+   + popcount(i xor j) * recombcost[c]); backward index = low bw bits of the bipartition *)
+Definition dp_column (c : nat) (lrows prev : table) : table :=
+  let b := bw c in
+  let rc := recomb c in
+  let nb := 2 * ntrios in
+  [seq (e.1, let prow := lookup prev (take b e.1) in
+             [seq oadd (nth None e.2 t)
+                       (ominl [seq oadd (nth None prow t') (Some (hamming nb t t' * rc)) | t' <- ts])
+             | t <- ts])
+  | e <- lrows].
 (* forward projection: minimum over all bipartitions with the same bits on the kept reads *)
 Definition project (c : nat) (col : table) : table :=
-  tabulate (bvs (count id (fmask c)))
-    (fun s t => ominl [seq nth None e.2 t | e <- col & mask (fmask c) e.1 == s]).
-(* `if (!found_valid_transmission_vector) throw "Mendelian conflict"` for some bipartition *)
-Definition conflict_at (c : nat) : bool :=
-  has (fun x => all (fun t => ~~ isSome (local_cost c x t)) ts) (bvs (size (active c))).
+  let fm := fmask c in
+  [seq (s, let es := [seq e <- col | mask fm e.1 == s] in
+           [seq ominl [seq nth None e.2 t | e <- es] | t <- ts])
+  | s <- bvs (count id fm)].
 
 Inductive result := Conflict | Cost of option nat.
 
@@ -203,9 +224,10 @@ Definition prev0 : table := [:: ([::], nseq nT (Some 0))].
 
 Fixpoint dp_loop (cs : seq nat) (prev : table) : result :=
   if cs is c :: cs' then
-    if conflict_at c then Conflict
+    let lr := local_rows c in
+    if conflict_in lr then Conflict
     else
-      let col := dp_column c prev in
+      let col := dp_column c lr prev in
       if cs' is [::] then Cost (ominl [seq ominl e.2 | e <- col])      (* last column: optimal_score *)
       else dp_loop cs' (project c col)
   else Cost (Some 0).                                                  (* no columns: score 0 *)
@@ -224,9 +246,24 @@ Definition opt_spec : option nat :=
 Definition no_conflict : bool :=
   all (fun c => has (fun t => allowed c t != [::]) ts) (iota 0 (i_ncols I)).
 
+(* the same minimum, evaluated with the per-column cost computers shared between all (beta, tau)
+   (for evaluation inside Coq on the implementation's outputs; equal to opt_spec by opt_fastE) *)
+Definition opt_fast : option nat :=
+  let cds := [seq (active c, colents c, [seq mk_cc c t | t <- ts], recomb c) | c <- iota 0 (i_ncols I)] in
+  let nb := 2 * ntrios in
+  ominl [seq (let L := [seq [seq lcost k cd.1.1.2 (restrict cd.1.1.1 beta) | k <- cd.1.2] | cd <- cds] in
+              let R := [seq cd.2 | cd <- cds] in
+              ominl [seq oaddl [seq oadd (Some (if c is c'.+1 then hamming nb (nth 0 tau c) (nth 0 tau c') * nth 0 R c else 0))
+                                         (nth None (nth [::] L c) (nth 0 tau c))
+                               | c <- iota 0 (i_ncols I)]
+                    | tau <- tuples nT (i_ncols I)])
+        | beta <- bvs nreads].
+
 (* the cost-optimal allele assignments of column c for bipartition x and transmission value t *)
 Definition optimal_assignments (c : nat) (x : seq bool) (t : nat) : seq (seq bool) :=
-  [seq ac.1 | ac <- assignment_costs c x t & Some ac.2 == local_cost c x t].
+  let acs := assignment_costs (mk_cc c t) (colents c) x in
+  let m := ominl [seq Some ac.2 | ac <- acs] in
+  [seq ac.1 | ac <- acs & Some ac.2 == m].
 
 (* well-formedness: what the code checks or silently assumes *)
 Definition sorted_reads : bool := sorted leq [seq r_first r | r <- i_reads I].
@@ -294,13 +331,15 @@ Definition l1_witness (I : inst) (o : outcome) : bool :=
 (* L1: every super-read allele that is not flagged as a tie agrees with every cost-optimal
    allele assignment of its column (at the implementation's own partition and transmission value) *)
 Definition forced_ok (I : inst) (c : nat) (x : seq bool) (t : nat) (al : seq (nat * nat * nat)) : bool :=
+  let hp := h2p_map I t in
+  let oas := optimal_assignments I c x t in
   (size al == i_nind I) &&
   all (fun i =>
          let v := nth (0, 0, 0) al i in
          all (fun a =>
-                ((v.1.1 == 3) || (v.1.1 == nat_of_bool (allele_of I a t i false))) &&
-                ((v.1.2 == 3) || (v.1.2 == nat_of_bool (allele_of I a t i true))))
-             (optimal_assignments I c x t))
+                ((v.1.1 == 3) || (v.1.1 == nat_of_bool (allele_of hp a i false))) &&
+                ((v.1.2 == 3) || (v.1.2 == nat_of_bool (allele_of hp a i true))))
+             oas)
       (iota 0 (i_nind I)).
 Definition l1_alleles (I : inst) (o : outcome) : bool :=
   match o with
@@ -313,6 +352,6 @@ Definition l1_alleles (I : inst) (o : outcome) : bool :=
 (* L1 (small instances): reported cost = brute-force minimum; a raised conflict = no feasible solution *)
 Definition l1_opt (I : inst) (o : outcome) : bool :=
   match o with
-  | None => opt_spec I == None
-  | Some (cost, _, _, _) => opt_spec I == Some cost
+  | None => opt_fast I == None
+  | Some (cost, _, _, _) => opt_fast I == Some cost
   end.
